@@ -232,6 +232,8 @@ func classifyParseErr(msg string) (bool, string) {
 		return true, "delim"
 	case strings.HasPrefix(msg, "malformed number"):
 		return true, "num"
+	case strings.HasPrefix(msg, "invalid escape sequence"):
+		return true, "esc"
 	case strings.HasPrefix(msg, "expected "):
 		return false, "exp"
 	case strings.HasSuffix(msg, "` can not start"):
